@@ -3,7 +3,8 @@ import Uquic.Proofs.WireTP
 /-! Transport parameters, round trip (1/3): the `for len(b) > 0` loop of `unmarshal` one iteration at a
     time, independence of the fuel, and one lemma per kind of parameter the marshaller writes. -/
 
-namespace Uquic.Proofs.Wire
+namespace Uquic.Proofs.WireMore
+open Uquic.Proofs.Wire
 open Uquic.Model.Wire Uquic.Model.Wire.Varint Uquic.Model.Wire.TP
 
 /-- the body of one loop iteration (on a non-empty `b`): the remaining bytes and the new state -/
@@ -187,4 +188,4 @@ theorem L_err (sb : Nat) (b : Bytes) (s : LoopSt) (e : TErr) (hne : b ≠ []) (h
   have hb : b.isEmpty = false := by cases b <;> simp_all
   simp only [hb, Bool.false_eq_true, if_false, h]
 
-end Uquic.Proofs.Wire
+end Uquic.Proofs.WireMore
